@@ -135,9 +135,9 @@ class Effects:
             self._memo[key] = body_effects(self.facts.fns[key], self.facts)
         return self._memo[key]
 
-    def transitive(self, entries):
-        """{(kind, detail): [(body key, site)]} over everything reachable from entries, plus the reach info."""
-        seen, ext, indirect, parent = self.facts.reach(entries)
+    def transitive(self, entries, avoid=()):
+        """{(kind, detail): [(body key, site)]} over everything reachable from entries (never entering `avoid`), plus the reach info."""
+        seen, ext, indirect, parent = self.facts.reach(entries, avoid=avoid)
         agg = collections.defaultdict(list)
         for k in sorted(seen):
             for kind, detail, site in self.of(k):
